@@ -137,10 +137,12 @@ type conn struct {
 	p *Plan
 }
 
-func (c *conn) Prepare(q string) (driver.Stmt, error) { return c.PrepareContext(context.Background(), q) }
-func (c *conn) Close() error                          { return c.c.Close() }
-func (c *conn) Begin() (driver.Tx, error)             { return c.BeginTx(context.Background(), driver.TxOptions{}) }
-func (c *conn) Ping(ctx context.Context) error        { return c.c.Ping(ctx) }
+func (c *conn) Prepare(q string) (driver.Stmt, error) {
+	return c.PrepareContext(context.Background(), q)
+}
+func (c *conn) Close() error                   { return c.c.Close() }
+func (c *conn) Begin() (driver.Tx, error)      { return c.BeginTx(context.Background(), driver.TxOptions{}) }
+func (c *conn) Ping(ctx context.Context) error { return c.c.Ping(ctx) }
 
 func (c *conn) BeginTx(ctx context.Context, opts driver.TxOptions) (driver.Tx, error) {
 	if err := c.p.hit("begin"); err != nil {
